@@ -76,12 +76,20 @@ package mdns
 //@ func (m *MdnsManager).deviceCategoriesString(categories) pure [C08,C16]
 //@ loop (m *MdnsManager).deviceCategoriesString #0
 //@   invariant true
-//@ func (m *MdnsManager).AnnounceMdnsEntry() entry [C16]
+// C19: once the provider has been asked, the announcement counts as active - the provider keeps the request even if
+// it cannot publish it now - so that a later withdrawal reaches the provider (M1/M2)
+//@ func (m *MdnsManager).AnnounceMdnsEntry() entry [C16,C19]
+//@   ensures [C19] M1-active: called(Announce) ==> m.isAnnounced
+//@   ensures [C19] M1-kept: old(m.isAnnounced) ==> m.isAnnounced
 //@   atcall Announce [C16] A1-mandatory: len($2) >= 8 && $2[0] == "txtvers=1" && $2[1] == "path=/ship/" && $2[2] == "id=" + m.identifier && $2[3] == "ski=" + m.ski && $2[4] == "brand=" + m.deviceBrand && $2[5] == "model=" + m.deviceModel && $2[6] == "type=" + m.deviceType
 //@   atcall Announce [C16] A2-register: $2[7] == ite(m.autoaccept, "register=true", "register=false")
 //@   atcall Announce [C16] A3-service: $0 == m.serviceName && $1 == m.port
 //@   ensures [C16] A4-published: m.mdnsProvider != nil ==> m.mdnsProvider.$announces == old(m.mdnsProvider.$announces) + 1
 //@   modifies m.isAnnounced, m.mdnsProvider.$announces
+//@ func (m *MdnsManager).UnannounceMdnsEntry() entry [C19]
+//@   ensures [C19] M2-withdrawn: old(m.isAnnounced) && m.mdnsProvider != nil ==> callcount(Unannounce) == 1 && !m.isAnnounced
+//@   ensures [C19] M2-idle: !old(m.isAnnounced) ==> callcount(Unannounce) == 0 && !m.isAnnounced
+//@   modifies m.isAnnounced
 // a change of the auto-accept flag while announced is published at once: the TXT record never shows a stale flag
 //@ func (m *MdnsManager).SetAutoAccept(accept) entry [C16]
 //@   ensures [C16] A5-flag: m.autoaccept == accept
@@ -180,6 +188,9 @@ package mdns
 //@ iface avahi.ServerInterface.EntryGroupFree(r)
 //@ iface avahi.EntryGroupInterface.AddService(iface, protocol, flags, name, serviceType, domain, host, port, txt)
 //@ iface avahi.EntryGroupInterface.Commit()
+// Shutdown hands the stop token to the listener while it holds the provider mutex: the listener and everything it
+// calls must never wait for that mutex, or the two block each other for good ('shutdown never deadlocks')
+//@ lockfree [C19] AvahiProvider.mux in (*mdns.AvahiProvider).chanListener
 //@ typeinv (a *AvahiProvider) a.avServer != nil && a.serviceElements != nil
 // a channel the provider holds is open: Shutdown closes the three channels and forgets them in the same critical
 // section, a restart makes new ones - so neither the stop token nor a second Shutdown can hit a closed channel
